@@ -535,7 +535,7 @@ def harness_build(binname, config="default", timeout=1500):
 # ------------------------------------------------------------------------------------------------
 # step 5: running cases
 # ------------------------------------------------------------------------------------------------
-def run_lines(exe, lines, case_timeout, env=None, args=()):
+def run_lines(exe, lines, case_timeout, env=None, args=(), _retry=True):
     """feed numbered lines to exe, one answer line per case; survives hangs and crashes.
     returns dict id -> answer (str). lines: list of (id, text)."""
     answers = {}
@@ -594,10 +594,16 @@ def run_lines(exe, lines, case_timeout, env=None, args=()):
         if stuck:
             p.kill()
             p.wait()
-            # the first unanswered case hangs
+            # the first unanswered case seems to hang: before saying so, give it a second chance alone with three times
+            # the budget (on a loaded machine a slow case must not be reported as a hang - that would be a false alarm)
             rest = [(i, t) for i, t in todo if i not in answers]
             if rest:
-                answers[rest[0][0]] = "hang"
+                i0, t0 = rest[0]
+                if _retry:
+                    again = run_lines(exe, [(i0, t0)], 3 * case_timeout, env=env, args=args, _retry=False)
+                    answers[i0] = again.get(i0, "hang")
+                else:
+                    answers[i0] = "hang"
             todo = rest[1:]
         else:
             p.wait()
